@@ -62,10 +62,12 @@ fn guard_counts_and_wakes_on_release() {
         (true, Some(a)) => { assert_eq!(woken(a), before[a] + 1); assert_eq!(sum, before[0] + before[1] + before[2] + 1); }
         _ => assert_eq!(sum, before[0] + before[1] + before[2]),
     }
-    if crossing {
-        // the registration is consumed: a further wake does nothing
-        c.0.task.wake();
-        assert_eq!(woken(0) + woken(1) + woken(2), sum);
+    // the registration is consumed by the wake and ONLY by it: a release that does not free capacity (the gate was
+    // over-committed, or not full) leaves the waiting task registered — it is still owed the wake-up of the release that does
+    c.0.task.wake();
+    match (crossing, reg) {
+        (false, Some(a)) => { assert_eq!(woken(a), before[a] + 1); assert_eq!(woken(0) + woken(1) + woken(2), sum + 1); }
+        _ => assert_eq!(woken(0) + woken(1) + woken(2), sum),
     }
 }
 
@@ -74,7 +76,7 @@ fn guard_counts_and_wakes_on_release() {
 fn any_panicking() -> bool { kani::any() }
 
 /// dropping any live guard from an arbitrary state (count >= 1) — whether or not the thread is unwinding: one decrement,
-/// wake iff count == capacity   [C17]
+/// wake iff count == capacity, and the registration survives a release that does not wake   [C17]
 #[kani::proof]
 #[kani::stub(std::thread::panicking, any_panicking)]
 fn drop_from_arbitrary_state() {
@@ -88,6 +90,13 @@ fn drop_from_arbitrary_state() {
     match (count == capacity, reg) {
         (true, Some(a)) => { assert_eq!(woken(a), before[a] + 1); assert_eq!(sum, before[0] + before[1] + before[2] + 1); }
         _ => assert_eq!(sum, before[0] + before[1] + before[2]),
+    }
+    // frame: a release that does not wake leaves the registration alone (count > capacity happens: `get()` never checks
+    // the capacity, and several services share one gate)
+    c.0.task.wake();
+    match (count == capacity, reg) {
+        (false, Some(a)) => { assert_eq!(woken(a), before[a] + 1); assert_eq!(woken(0) + woken(1) + woken(2), sum + 1); }
+        _ => assert_eq!(woken(0) + woken(1) + woken(2), sum),
     }
 }
 
